@@ -415,6 +415,100 @@ def environment_reads(a):
         a.candidates.append(item2)
 
 
+def cursor_line_numbers(a):
+    """C05 (`console output identical up to the order of independent detail lines`): the console reporters print `Code:` snippets through ONE
+    ReadCursor per data file while walking the failing resources in HashMap order, so the cursor is asked to seek backwards and forwards in
+    an order that differs per process. That is only harmless if the cursor's answers do not depend on its history: every (number, text)
+    pair it caches must carry the text's real position. One inductive step of seek_line / next from an arbitrary cursor state with
+    0 <= line_num <= cached lines: the j-th line read from the buffer is stored under number (cached lines + j)."""
+    import mirexec
+    from miragg import calls
+    CUR = r"(?:utils::)?<impl at guard/src/utils/mod\.rs:\d+:\d+: \d+:\d+>::"
+    cands = []
+    for meth in ("seek_line", "next"):
+        try:
+            ex = a.exec(CUR + meth, {"next": mirexec.m_option, "len": lambda ex, av: ("int", ex.len_of(av[0])), "index": mirexec.m_index},
+                        log=("push", "len", "next"), unroll=2, max_paths=4000, first_arg_re=r"_1: &mut (?:utils::)?ReadCursor")
+        except Untranslatable as e:
+            a.ob.items.append({"obligation": f"ReadCursor::{meth}/numbers-are-positions", "describe": str(e), "verdicts": {}, "status": "inconclusive", "model": None})
+            continue
+        a.fns.append(f"utils::ReadCursor::{meth}")
+        a.note_cut(f"ReadCursor::{meth}/numbers-are-positions", ex)
+        me = ex.arg_env["_1"]
+        ln0 = ex.proj.get((me[1], ".0")) if me[0] == "opaque" else None
+        bad, npush = [], 0
+        tgt = ex.arg_env.get("_2")
+        cache0 = ex.proj.get((me[1], ".2")) if me[0] == "opaque" else None
+        for p in ex.paths:
+            lens = calls(p, "len")
+            pushes = calls(p, "push")
+            if meth == "seek_line" and tgt is not None and tgt[0] == "int" and lens:
+                # a line that is already cached (1 <= line <= cached lines) is answered from the cache: the buffer is not read
+                if calls(p, "next"):
+                    bad.append(f"(and {pc_term(p.pc)} (>= {tgt[1]} 1) (>= {lens[0][3][1]} {tgt[1]}))")
+            if not pushes:
+                bad.append("false")
+                continue
+            cache = pushes[0][2][0]
+            len0 = ex.len_of(cache)
+            pre = f"(and (>= {ln0[1]} 0) (<= {ln0[1]} {len0}))" if ln0 is not None and ln0[0] == "int" else "true"
+            terms = []
+            for j, e in enumerate(pushes):
+                npush += 1
+                t = e[2][1]
+                num = t[1][0] if t[0] == "tuple" and t[1] and t[1][0][0] == "int" else None
+                terms.append(f"(= {num[1]} (+ {len0} {j + 1}))" if num is not None and same_cache(e[2][0], cache) else "false")
+            bad.append(f"(and {pc_term(p.pc)} {pre} (not (and true {' '.join(terms)})))")
+        c = a.discharge(f"ReadCursor::{meth}/numbers-are-positions", ex, bad,
+                        f"ReadCursor::{meth}, one call from an arbitrary state with 0 <= line_num <= cached lines ({npush} pushes over all paths, <= 3 new lines): "
+                        "the j-th line read from the buffer is cached under the number (cached lines + j), its real position - whatever line_num was "
+                        "left at by an earlier backward seek; a line that is already cached is answered from the cache without reading on", witness=(meth == "seek_line"))
+        if c:
+            cands.append(c)
+    for c in cands:
+        c["replay"] = replay_code_snippets(a)
+        c["reproduced"] = c["replay"].get("reproduced", False)
+        a.candidates.append(c)
+
+
+def same_cache(x, y):
+    return x == y
+
+
+def replay_code_snippets(a):
+    """validate (console) on a template with six failing resources, 10 fresh processes: every `  N.  text` line of a Code: snippet must be
+    line N of the data file, and the multiset of output lines must be the same in every run"""
+    import os, shutil, subprocess, tempfile, re as _re
+    exe = a.cli()
+    if not exe:
+        return {"reproduced": False, "note": "native build failed"}
+    d = tempfile.mkdtemp(prefix="cfnverif_replay_")
+    out = []
+    try:
+        text = "Resources:\n" + "".join(f"  res{k}:\n    Type: AWS::S3::Bucket\n    Properties:\n      Name: {k}\n      Note: line of resource {k}\n" for k in range(6))
+        open(os.path.join(d, "t.yaml"), "w").write(text)
+        open(os.path.join(d, "r.guard"), "w").write("rule r {\n  Resources.*.Properties.Name == 99\n}\n")
+        lines = text.split("\n")
+        seen = {}
+        for run in range(10):
+            pr = subprocess.run([exe, "validate", "-r", os.path.join(d, "r.guard"), "-d", os.path.join(d, "t.yaml")], capture_output=True, text=True, timeout=60)
+            wrong = []
+            for m in _re.finditer(r"^\s+(\d+)\.(.*)$", pr.stdout, _re.M):
+                n_, t_ = int(m.group(1)), m.group(2)
+                real = lines[n_ - 1] if 0 < n_ <= len(lines) else None
+                if real is None or real.strip() != t_.strip():
+                    wrong.append({"printed": f"{n_}.{t_}", "line_of_the_file": real})
+            if wrong and not any("problem" in o and o["problem"].startswith("Code") for o in out):
+                out.append({"problem": "Code: snippet lines carry the wrong line number", "run": run, "examples": wrong[:3], "exit": pr.returncode})
+            seen.setdefault(tuple(sorted(pr.stdout.replace(d, "").splitlines())), []).append(run)
+        if len(seen) > 1:
+            out.append({"problem": "the console output differs between runs in more than the order of its lines", "distinct_outputs": len(seen),
+                        "runs_per_output": sorted(len(v) for v in seen.values())})
+        return {"reproduced": bool(out), "mismatches": out[:3]}
+    finally:
+        shutil.rmtree(d, ignore_errors=True)
+
+
 COLOUR_SINK = re.compile(r"new_display::<(?:colored::)?ColoredString>|<(?:colored::)?ColoredString as (?:std::fmt::)?Display>::fmt|"
                          r"<(?:colored::)?ColoredString as (?:std::string::)?ToString>::to_string|colored::control::")
 COLOUR_TOLERATED = [
@@ -723,4 +817,4 @@ def replay_determinism(a, runs=8):
         shutil.rmtree(d, ignore_errors=True)
 
 
-SITES = {"C05": [order_independence, single_key_lemmas, process_state_sites, environment_reads], "C12": [process_state_sites, order_independence]}
+SITES = {"C05": [order_independence, single_key_lemmas, process_state_sites, environment_reads, cursor_line_numbers], "C12": [process_state_sites, order_independence]}
